@@ -90,7 +90,7 @@ abbrev tVRc (h : THeap) (S : Array Cell) (v : VCell) (w : Val) : Prop :=
 
 def tD (final : List LambdaM) : RepData2 tops :=
   { named := fun _ => False, slot := fun _ => 0, VR := tVRc, SRx := fun _ _ => True,
-    vecElems := fun _ _ => none,
+    vecElems := fun _ _ => none, envOK := fun _ _ => True,
     lamSrcs := fun h l => (h.lams[l]?).map (·.srcs), LM := id, final := final,
     setG := fun _ => False }
 
@@ -126,7 +126,7 @@ theorem ext_same (final : List LambdaM) (h h' : THeap) (S : Array Cell) (hl : h'
   refine ⟨StoreExt.refl _, fun _ _ x => tVRc_heap x,
     fun _ _ x => DatumAt.transport (D := (tD final).toRepData) (vecElems := (tD final).vecElems) (h := h) (h' := h')
       (S := S) (S' := S) (fun _ _ y => tVRc_heap y) (fun _ _ _ y => y) (fun _ _ y => y) x,
-    fun l x => ?_, fun v l e x => ?_, hp, hv⟩
+    fun l x => ?_, fun v l e x => ?_, fun _ _ => trivial, hp, hv⟩
   · show (h'.lams[l]?).isSome = true ∧ (∀ o, (h'.lams[l]?).bind _ = (h.lams[l]?).bind _) ∧
       (h'.lams[l]?).map _ = (h.lams[l]?).map _ ∧ (h'.lams[l]?).map _ = (h.lams[l]?).map _
     rw [hl]
@@ -284,7 +284,7 @@ theorem laws (final : List LambdaM) : Laws2 (tD final) where
       rw [hl] at hsrc'
       have ht : t.srcs = srcs := by simpa using hsrc'
       let h' : THeap := { h with envs := h.envs.push (t.srcs.map (tCloSlot h ep)), clos := h.clos.push (lam, h.envs.size) }
-      refine ⟨h', h.clos.size, h.envs.size, ?_, ?_, tEnvGet_fresh h, ?_, ?_, fun _ => rfl, ?_, trivial⟩
+      refine ⟨h', h.clos.size, h.envs.size, ?_, ?_, tEnvGet_fresh h, ?_, ?_, fun _ => rfl, ?_, trivial, trivial⟩
       · show (match h.lams[lam]? with | none => _ | some t => _) = _
         rw [hl]
       · show (match (h.clos.push (lam, h.envs.size))[h.clos.size]? with | some (l, e) => _ | none => _) = _
